@@ -115,8 +115,14 @@ def gh(index, rep):
                       "(cropland under greenhouses would be double-counted or lost)", loc=loc(OC, fn), detail=str(v))
     c08.production_form(index, rep, rule)
     # the share passed in is the greenhouse object's share of the same run, the hd split uses the configured delays
-    p = index.func(PARAMS, "Parameters.init_greenhouse_params")
-    call = [c for c in walk_no_nested(p) if isinstance(c, ast.Call) and isinstance(c.func, ast.Attribute) and c.func.attr == "set_crop_production_minus_greenhouse_area"]
+    # read in the routine that holds both the greenhouse model and the crop model's call, helpers of the class inlined: the two may sit in
+    # one helper (init_greenhouse_params) or be split over helpers called in sequence by compute_parameters_first_round
+    def _has(f_, attr):
+        return [c for c in walk_no_nested(f_) if isinstance(c, ast.Call) and isinstance(c.func, ast.Attribute) and c.func.attr == attr]
+    p = index.func(PARAMS, "Parameters.init_greenhouse_params", required=False)
+    if p is None or not _has(p, "set_crop_production_minus_greenhouse_area"):
+        p = index.flat_func(PARAMS, "Parameters.compute_parameters_first_round", depth=3)
+    call = _has(p, "set_crop_production_minus_greenhouse_area")
     from .core import Inliner as _Inl
     inl_p = _Inl(p)
     from .core import args_by_ref_names as _abn9
